@@ -13,7 +13,7 @@ Reset(r) == /\ cap' = r.cap /\ count' = 0 /\ guards' = {} /\ nextGid' = 1 /\ ncl
             /\ reg' = 0 /\ refused' = 0 /\ depth' = 0 /\ act' = NoAct
 Step(r) == \/ r.ev = "reset" /\ Reset(r)
            \/ r.ev = "get" /\ Get(r.a) /\ Matches(r)
-           \/ r.ev = "drop" /\ Drop(r.a) /\ Matches(r)
+           \/ r.ev = "drop" /\ Drop(r.a, r.inl) /\ Matches(r) /\ act'.inline = r.inline
            \/ r.ev = "avail" /\ Avail(r.a, r.w) /\ Matches(r)
            \/ r.ev = "clone" /\ Clone(r.a) /\ Matches(r)
 TInit == Init /\ cap = 0 /\ l = 0
